@@ -4,6 +4,7 @@
  *            distinct object of EXACTLY symbol_size bytes
  *  ensures   for every g_k < symbol_size and every j < to_size: to[j][g_k] == old(to[j][g_k]) ^ from[g_k]  (post.value)
  *            from[g_k] unchanged (post.from_unchanged); pointer table unchanged (post.table_unchanged)
+ *  alignment every target at address = in_ta mod 8, every source at in_fa mod 8 (leading slack inside the object)
  *  frame     exact-size objects + pointer checks
  *  BOUNDED: OFV_SIZE and OFV_COUNT are harness constants (one run per pair), contents and g_k symbolic.
  */
@@ -18,7 +19,7 @@
 #error "OFV_COUNT"
 #endif
 
-UINT32 g_k;
+UINT32 g_k, in_ta, in_fa;
 UINT8 in_from_k;
 UINT8 in_to_k[OFV_COUNT + 1];
 
@@ -26,14 +27,23 @@ int main(void)
 {
 	UINT32 j;
 	IN(UINT32, g_k);
+#ifdef OFV_TA
+	in_ta = OFV_TA;		/* alignment (address mod 8) of the target(s): harness constant ... */
+	in_fa = OFV_FA;		/* ... and of the source(s) */
+#else
+	IN(UINT32, in_ta);
+	IN(UINT32, in_fa);
+#endif
+	REQUIRES(in_ta < 8 && in_fa < 8);
 	REQUIRES(OFV_SIZE == 0 ? g_k == 0 : g_k < OFV_SIZE);
-	UINT8 *from = OFV_MALLOC(OFV_SIZE);
+	UINT8 *from = (UINT8 *)OFV_MALLOC(in_fa + OFV_SIZE) + in_fa;
 	void **to = OFV_MALLOC(OFV_COUNT * sizeof(void *));
 	void *saved[OFV_COUNT + 1];
 	REQUIRES(to != NULL && from != NULL);
 	for (j = 0; j < OFV_COUNT; j++) {
-		UINT8 *p = OFV_MALLOC(OFV_SIZE);
+		UINT8 *p = OFV_MALLOC(in_ta + OFV_SIZE);
 		REQUIRES(p != NULL);
+		p += in_ta;
 		to[j] = saved[j] = p;
 		if (OFV_SIZE > 0)
 			IN_MEM_I(UINT8, in_to_k, j, p[g_k]);
